@@ -44,8 +44,8 @@ func snapshot(c *rux.Context, st *chain.ReqState, r *rux.Router) string {
 	}
 	_, hasRecover := c.Get(rux.CTXRecoverResult)
 	_, hasAllowed := c.Get(rux.CTXAllowedMethods)
-	return fmt.Sprintf("data={%s} nparams=%d params={%s} errors=%d firstError=%v aborted=%v status=%d length=%d rawWriterIsMine=%v respType=%T reqIsMine=%v routerIsMine=%v reqCtxValue=%v recoverKey=%v allowedKey=%v handlerNonNil=%v",
-		userData(c.Data()), len(c.Params), strings.Join(ps, ","), len(c.Errors), c.FirstError(), c.IsAborted(), c.StatusCode(), c.Length(),
+	return fmt.Sprintf("data={%s} nparams=%d paramsNil=%v params={%s} errors=%d firstError=%v aborted=%v status=%d length=%d rawWriterIsMine=%v respType=%T reqIsMine=%v routerIsMine=%v reqCtxValue=%v recoverKey=%v allowedKey=%v handlerNonNil=%v",
+		userData(c.Data()), len(c.Params), c.Params == nil, strings.Join(ps, ","), len(c.Errors), c.FirstError(), c.IsAborted(), c.StatusCode(), c.Length(),
 		c.RawWriter() == st.Rec, c.Resp, c.Req == st.Req, c.Router() == r, c.ReqCtxValue("k"), hasRecover, hasAllowed, c.Handler() != nil)
 }
 
